@@ -245,7 +245,7 @@ class Engine:
                 raise PanicExc(f"index out of bounds (write): len {len(v.elems)} idx {step}")
             e = list(v.elems)
             e[step] = self._set(e[step], path[1:], new)
-            return Seq(e)
+            return Seq(e, v.ety)
         if isinstance(v, IterV):
             d = list(v.d)
             d[step] = self._set(d[step], path[1:], new)
@@ -273,7 +273,7 @@ class Engine:
         if p.win is not None:
             if not isinstance(v, Seq):
                 raise Unsupported("window on non-seq")
-            return Seq(v.elems[p.win[0] : p.win[0] + p.win[1]])
+            return Seq(v.elems[p.win[0] : p.win[0] + p.win[1]], v.ety)
         return v
 
     def store_ptr(self, st, p, val):
@@ -311,7 +311,7 @@ class Engine:
             elif k == "index":
                 idx = st.frames[fid][pr[1]]
                 if not isinstance(idx, int):
-                    raise SymbolicIndex(root, path, win, idx)
+                    raise SymbolicIndex(root, path, win, idx, pr[1])
                 if win is not None:
                     if idx < 0 or idx >= win[1]:
                         raise PanicExc(f"index out of bounds: len {win[1]} idx {idx}")
@@ -513,10 +513,7 @@ class Engine:
             return self.eval_operand(st, fid, body, rv[1])
         if k == "ref":
             pl = rv[1]
-            try:
-                root, path, win = self.place_addr(st, fid, pl)
-            except SymbolicIndex:
-                raise Unsupported("reference to symbolically indexed element")
+            root, path, win = self.place_addr(st, fid, pl)  # SymbolicIndex is handled by exec_body (case split on the index)
             return Ptr(root, path, win)
         if k == "binop":
             a = self.eval_operand(st, fid, body, rv[2])
@@ -838,11 +835,7 @@ class Engine:
                 if va is vb:
                     nf[k] = va
                 else:
-                    try:
-                        nf[k] = self.merge_val(c, va, vb)
-                    except Unmergeable:
-                        # dead temporaries of different shape: poison, reading it later is reported
-                        nf[k] = UNINIT
+                    nf[k] = self.merge_val(c, va, vb)  # Unmergeable propagates: the two paths stay separate
             frames[fid] = nf
         heap = {}
         for h in sa.heap.keys() | sb.heap.keys():
@@ -942,14 +935,38 @@ class Engine:
         r = self.intr.dispatch(self, st, body, callee, args)
         if r is not None:
             return r
-        name = self.mir.resolve(callee)
+        name = None
+        # `<T as Trait>::m` inside an un-monomorphised generic body: dispatch on the run-time type of the receiver
+        mg = re.match(r"^<([A-Z]) as ([\w:]+)(?:<.*>)?>::(\w+)", callee.strip())
+        if mg and args:
+            v0 = self.deref_all(st, args[0])
+            if isinstance(v0, (Struct, Enum)):
+                name = self.mir.resolve(f"<{v0.ty} as {mg.group(2)}>::{mg.group(3)}")
+                # `impl Trait for X` and `impl Trait for &X` may both exist: pick by the reference depth of the receiver
+                depth = 0
+                pv = args[0]
+                while isinstance(pv, Ptr):
+                    depth += 1
+                    pv = self.load_ptr(st, pv)
+                tr_last = mg.group(2).split("::")[-1]
+                cands = [n for (t, n) in self.mir.methods.get((v0.ty, mg.group(3)), []) if t == tr_last]
+                if len(cands) > 1:
+                    for n in cands:
+                        mh = re.search(r"\(_1: ((?:&(?:mut )?)*)", self.mir.bodies[n].header)
+                        if mh and mh.group(1).count("&") == depth:
+                            name = n
+                            break
+            elif isinstance(v0, Seq) and v0.ety:
+                # Vec<X> / [X]: an impl for Vec<X> if there is one, else the slice impl (what `impl<T> Trait for Vec<T> where [T]: Trait` forwards to)
+                if (f"[{v0.ety}]", mg.group(3)) in self.mir.methods:
+                    name = self.mir.resolve(f"<[{v0.ety}] as {mg.group(2)}>::{mg.group(3)}")
+                else:
+                    # no override for this slice type: the trait's provided method
+                    tr_last = mg.group(2).split("::")[-1]
+                    dflt = [n for (t, n) in self.mir.methods.get((tr_last, mg.group(3)), []) if t is None]
+                    name = dflt[0] if dflt else None
         if name is None:
-            # `<T as Trait>::m` inside an un-monomorphised generic body: dispatch on the run-time type of the receiver
-            mg = re.match(r"^<([A-Z]\w*) as ([\w:]+)(?:<.*>)?>::(\w+)", callee.strip())
-            if mg and args:
-                v0 = self.deref_all(st, args[0])
-                if isinstance(v0, (Struct, Enum)):
-                    name = self.mir.resolve(f"<{v0.ty} as {mg.group(2)}>::{mg.group(3)}")
+            name = self.mir.resolve(callee)
         if name is None:
             raise Unsupported("call to unmodelled function: " + mirmod.strip_generics(callee)[:160])
         if name in self.stubs:
@@ -979,20 +996,25 @@ class Engine:
             frame[n] = v
         st.frames[fid] = frame
         base_pc_len = len(st.pc)
-        work = [(st, "bb0", {})]
+        work = [(st, "bb0", {}, 0)]
         outs = []
         types = body.local_types
         while work:
-            st, bb, visits = work.pop()
+            item = work.pop()
+            st, bb, visits = item[0], item[1], item[2]
+            start_at = item[3] if len(item) > 3 else 0
             while True:
-                c = visits.get(bb, 0) + 1
-                if c > self.loop_bound:
-                    raise Inconclusive(f"loop bound {self.loop_bound} exceeded in {body.name} at {bb}")
-                visits[bb] = c
+                if start_at == 0:
+                    c = visits.get(bb, 0) + 1
+                    if c > self.loop_bound:
+                        raise Inconclusive(f"loop bound {self.loop_bound} exceeded in {body.name} at {bb}")
+                    visits[bb] = c
                 stmts = body.stmts(bb)
                 nxt = None
                 try:
-                    for s in stmts:
+                    for s_i, s in enumerate(stmts):
+                        if s_i < start_at:
+                            continue
                         self.stats["stmts"] += 1
                         k = s[0]
                         if k == "assign":
@@ -1075,12 +1097,30 @@ class Engine:
                                 nxt = s[4]
                         else:
                             raise Unsupported("stmt kind " + k)
+                except SymbolicIndex as si:
+                    # case split on the value of a symbolic index: re-run this statement with the index made concrete
+                    seq = self.load(st, si.root, si.path)
+                    nel = si.win[1] if si.win else (len(seq.elems) if isinstance(seq, Seq) else 0)
+                    if si.local is None:
+                        raise Unsupported("symbolic index without a named local")
+                    for kk in range(nel):
+                        if self.feasible(st, si.idx == kk):
+                            s2 = st.fork()
+                            s2.assume(si.idx == kk)
+                            s2.frames[fid][si.local] = kk
+                            work.append((s2, bb, dict(visits), s_i))
+                    nxt = None
+                except Unsupported as u:
+                    if "[in " not in str(u):
+                        raise Unsupported(f"{u} [in {body.name[-90:]} {bb}]")
+                    raise
                 except PanicExc as p:
                     if fid in st.frames and not keep_frame:
                         del st.frames[fid]
                     outs.append(Outcome(st, "panic", p.msg))
                     self._count_path()
                     nxt = None
+                start_at = 0
                 if nxt is None:
                     break
                 bb = nxt
@@ -1098,7 +1138,11 @@ class Engine:
             v = int(v)
         if isinstance(v, int):
             for k, bb in targets.items():
-                if k != "otherwise" and _swval(k) == v:
+                if k == "otherwise":
+                    continue
+                kv = _swval(k)
+                # negative discriminants (e.g. Ordering::Less = -1i8) are printed as their unsigned bit pattern
+                if kv == v or (v < 0 and kv in (v + 2**8, v + 2**16, v + 2**32, v + 2**64)):
                     return bb
             if "otherwise" in targets:
                 return targets["otherwise"]
@@ -1155,8 +1199,8 @@ class Unmergeable(Exception):
 
 
 class SymbolicIndex(Exception):
-    def __init__(self, root, path, win, idx):
-        self.root, self.path, self.win, self.idx = root, path, win, idx
+    def __init__(self, root, path, win, idx, local=None):
+        self.root, self.path, self.win, self.idx, self.local = root, path, win, idx, local
 
 
 UNINIT_POISON = UNINIT
